@@ -89,7 +89,7 @@ MODEL_POSITIONS = [
     ('subquery_two_versions', 'SELECT * FROM int1.t1 JOIN {M}.pred.1 WHERE t1.id IN (SELECT t3.id FROM int1.t3 JOIN {M}.pred.2)', ['t1', 't3'], [('pred', '1'), ('pred', '2')]),
 ]
 
-CATALOGS = ['names_list', 'dicts_list', 'names_legacy', 'dicts_default', 'upper_names', 'legacy_dict_capital_project', 'list_capital_project', 'legacy_dict_default_int1']
+CATALOGS = ['names_list', 'dicts_list', 'names_legacy', 'dicts_default', 'upper_names', 'legacy_dict_capital_project', 'list_capital_project', 'legacy_dict_default_int1', 'names_default_int1']
 
 
 def catalog(kind, project='mindsdb'):
@@ -118,6 +118,9 @@ def catalog(kind, project='mindsdb'):
         if project != 'proj':
             return None
         return dict(integrations=['int1', 'int2'], predictor_metadata=[dict(name='pred', integration_name='Proj'), dict(name='pred2', integration_name='Proj')], default_namespace='mindsdb')
+    if kind == 'names_default_int1':
+        # a data integration as default namespace
+        return dict(integrations=['int1', 'int2'] + ([] if project == 'mindsdb' else [{'name': project, 'type': 'project'}]), predictor_metadata=metas, default_namespace='int1')
     if kind == 'upper_names':
         return dict(integrations=['INT1', 'Int2'] + ([] if project == 'mindsdb' else [{'name': project, 'type': 'project'}]), predictor_metadata=metas)
 
